@@ -460,7 +460,7 @@ fn gen_expr(r: &mut Rng, fields: &[&str], depth: usize) -> String {
 
 fn gen_chunk(r: &mut Rng, fields: &[&str], ctx: &GenCtx, depth: usize) -> String {
     let e = |r: &mut Rng| gen_expr(r, fields, 0);
-    let k = r.below(if depth >= 2 { 6 } else { 14 });
+    let k = r.below(if depth >= 2 { 6 } else { 15 });
     match k {
         0 => format!("<view class=\"c {{{{{}}}}}\" data-x=\"{{{{{}}}}}\" mark:m=\"{{{{{}}}}}\">t{{{{{}}}}}-{{{{{}}}}}</view>", e(r), e(r), e(r), e(r), e(r)),
         1 => format!("<text id=\"{{{{{}}}}}\" style=\"color: {{{{{}}}}}\" hidden=\"{{{{{}}}}}\">{{{{{}}}}}</text>", e(r), e(r), e(r), e(r)),
@@ -494,6 +494,23 @@ fn gen_chunk(r: &mut Rng, fields: &[&str], ctx: &GenCtx, depth: usize) -> String
         9 if !ctx.include_targets.is_empty() => format!("<include src=\"{}\"/>", r.pick(&ctx.include_targets)),
         10 if !ctx.modules.is_empty() => format!("<view a=\"{{{{{}.f({})}}}}\" bind:tap=\"{{{{{}.f}}}}\"/>", r.pick(&ctx.modules), e(r), r.pick(&ctx.modules)),
         11 => format!("<view wx:for=\"{{{{{}}}}}\" wx:for-item=\"it\" wx:for-index=\"ix\"><input model:value=\"{{{{it.v}}}}\"/>{{{{ix}}}}{{{{{}}}}}</view>", r.pick(fields), e(r)),
+        12 => {
+            // slot value references: several distinct names in one children list
+            let names = ["sa", "sb", "sc", "sd"];
+            let n = r.range(2, 4);
+            let mut a = String::new();
+            let mut b = String::new();
+            for nm in names.iter().take(n) {
+                if r.chance(0.5) {
+                    a.push_str(&format!(" slot:{}", nm));
+                    b.push_str(&format!("{{{{{}}}}}", nm));
+                } else {
+                    a.push_str(&format!(" slot:{}=\"l{}\"", nm, nm));
+                    b.push_str(&format!("{{{{l{}}}}}", nm));
+                }
+            }
+            format!("<comp-{} items=\"{{{{{}}}}}\"><view{}>{}{{{{{}}}}}</view><text slot:sd>{{{{sd}}}}</text></comp-{}>", 0, e(r), a, b, e(r), 0)
+        }
         _ => format!("<view a=\"{{{{{}}}}}\" b=\"s\" c>{}</view>", e(r), gen_chunk(r, fields, ctx, depth + 1)),
     }
 }
@@ -631,6 +648,19 @@ pub fn generate(seed: u64, thorough: bool) -> (GroupWorld, Vec<GExec>) {
             convert_host: r.chance(0.5),
             host_is: if r.chance(0.3) { Some("host-comp".into()) } else { None },
         });
+    }
+    // half of the worlds also carry the files of a runtime world (a different template generator)
+    if r.chance(0.5) {
+        let w = crate::gen::generate(seed, crate::gen::Prop::C06);
+        for (p, src) in w.sources() {
+            let path = format!("rt/{}", p);
+            if !world.files.iter().any(|f| f.path == path) {
+                world.files.push(GFile { path, chunks: vec![src], old_chunks: None });
+            }
+        }
+        for (p, c) in w.scripts {
+            world.scripts.push((format!("rt/{}", p), c));
+        }
     }
     let m = if thorough { 24 } else { 8 };
     let mut execs = vec![];
